@@ -99,7 +99,7 @@ def model_int(model, t, signed=False):
 
 
 def decide(name, assumptions, violation, session=None, extract=None, timeout_s=120, reach_goals=None,
-           second=None, bounds=None, sample_extract=None, unwind_is_violation=False, abstract_fp=False, engines=('z3',)):
+           second=None, bounds=None, sample_extract=None, unwind_is_violation=False, abstract_fp=False, engines=('z3',), optional_goals=None):
     """Standard obligation: reachability twin(s) must be sat, violation and side obligations must be unsat.
 
     extract(model) -> json-able counterexample.  Returns a result dict.
@@ -122,6 +122,9 @@ def decide(name, assumptions, violation, session=None, extract=None, timeout_s=1
             except Exception as e:   # noqa
                 res['sample'] = f'<sample extraction failed: {e}>'
     res['reach'] = 'sat'
+    for gname, goal in (optional_goals or []):
+        r = smt.solve(smt.Query(f'{name}/{gname}', assumptions, goal, 'reach'), min(timeout_s, 30))
+        res['queries'].append({'q': gname + ' (optional witness)', 'result': r['result'], 'time_s': r['time_s']})
     # side obligations: unwinding assertions, undefined behaviour, encoding overflow
     if session is not None:
         side = session.side()
